@@ -4,6 +4,7 @@
 
 mod families;
 mod play;
+mod textreplay;
 
 fn main() {
     let argv: Vec<String> = std::env::args().collect();
@@ -15,6 +16,9 @@ fn main() {
     match argv[1].as_str() {
         "play" => play::run(&args),
         "families" => families::run(&args),
+        "san" => textreplay::san(&args),
+        "fen" => textreplay::fen(&args),
+        "hashvar" => textreplay::hashvar(&args),
         other => {
             eprintln!("unknown command {}", other);
             std::process::exit(2);
